@@ -7,7 +7,8 @@
    Everything is judged here:
 
    agree = (i) the structure of every pass output equals the model pass (Planner.v) on the model
-           chain, operator identity = position in the raw chain; the capability flags / cost hints
+           chain, operator identity = the operator OBJECT (first position of that Arc / op_uid among the
+           raw chain's operators; an object may occur several times); the capability flags / cost hints
            of the real operator objects equal the model's; (ii) each of the four runs
            (seq/par x optimised/literal) returns what Exec.v predicts on the corresponding model
            chain; (iii) build_plan().chain, explain() and run_collect agree with the model plan.
@@ -501,38 +502,60 @@ Definition dec_op (uid : nat) (j : J) : option dynop :=
       end
   | _ => None
   end.
-Fixpoint dec_ops (uid : nat) (l : list J) : option (list dynop) :=
+(* An operator item is either a definition (a fresh operator OBJECT; its uid is the number of
+   definitions before it) or ["ref", k]: the SAME object as the k-th definition of the chain (a
+   clone of that Arc) - same uid, same body, same flags.  `defs` = the definitions so far. *)
+Definition dec_op_item (defs : list dynop) (j : J) : option (dynop * list dynop) :=
+  match j with
+  | JL [JS t; k] =>
+      if tag_is t "ref" then
+        match dec_nat k with
+        | Some n => match nth_error defs n with Some o => Some (o, defs) | None => None end
+        | None => None
+        end
+      else None
+  | _ => match dec_op (List.length defs) j with
+         | Some o => Some (o, defs ++ [o])
+         | None => None
+         end
+  end.
+Fixpoint dec_ops (defs : list dynop) (l : list J) : option (list dynop * list dynop) :=
   match l with
-  | [] => Some []
-  | j :: r => match dec_op uid j, dec_ops (S uid) r with
-              | Some o, Some os => Some (o :: os)
-              | _, _ => None
-              end
+  | [] => Some ([], defs)
+  | j :: r =>
+      match dec_op_item defs j with
+      | Some (o, defs1) =>
+          match dec_ops defs1 r with
+          | Some (os, defs2) => Some (o :: os, defs2)
+          | None => None
+          end
+      | None => None
+      end
   end.
 
-Definition dec_node (uid : nat) (j : J) : option (node * nat) :=
+Definition dec_node (defs : list dynop) (j : J) : option (node * list dynop) :=
   match j with
   | JL [JS t] =>
-      if tag_is t "gbk" then Some (NB (BGroupByKey TKV TKG), uid) else None
+      if tag_is t "gbk" then Some (NB (BGroupByKey TKV TKG), defs) else None
   | JL [JS t; JL ops] =>
       if tag_is t "st" then
-        option_map (fun os => (NB (BStateless os), uid + List.length os)) (dec_ops uid ops)
+        option_map (fun r => (NB (BStateless (fst r)), snd r)) (dec_ops defs ops)
       else None
   | JL [JS t; a; b] =>
       if tag_is t "src" then
         match dec_tagname a, dec_vals b with
-        | Some tg, Some rows => Some (NB (BSource (vec_source tg rows)), uid)
+        | Some tg, Some rows => Some (NB (BSource (vec_source tg rows)), defs)
         | _, _ => None
         end
       else if tag_is t "mat" then
         match dec_tagname a, dec_vals b with
-        | Some tg, Some rows => Some (NB (BMaterialized tg rows), uid)
+        | Some tg, Some rows => Some (NB (BMaterialized tg rows), defs)
         | _, _ => None
         end
       else if tag_is t "cv" then
         match dec_cid a, jbool b with
         | Some c, Some lg =>
-            Some (NB (BCombineValues (comb_of c) TKV TKG (comb_out_tag c) lg), uid)
+            Some (NB (BCombineValues (comb_of c) TKV TKG (comb_out_tag c) lg), defs)
         | _, _ => None
         end
       else None
@@ -541,33 +564,55 @@ Definition dec_node (uid : nat) (j : J) : option (node * nat) :=
         match dec_cid a, jbool b, dec_fanout c with
         | Some cd, Some lifted, Some f =>
             Some (NB (BCombineGlobal (comb_of cd) lifted TU (if comb_list_out cd then TL else TU) f),
-                  uid)
+                  defs)
         | _, _, _ => None
         end
       else None
   | _ => None
   end.
-Fixpoint dec_nodes (uid : nat) (l : list J) : option (list node) :=
+Fixpoint dec_nodes (defs : list dynop) (l : list J) : option (list node) :=
   match l with
   | [] => Some []
   | j :: r =>
-      match dec_node uid j with
-      | Some (n, uid') => match dec_nodes uid' r with
-                          | Some ns => Some (n :: ns)
-                          | None => None
-                          end
+      match dec_node defs j with
+      | Some (n, defs') => match dec_nodes defs' r with
+                           | Some ns => Some (n :: ns)
+                           | None => None
+                           end
       | None => None
       end
   end.
 
 (* ------------------------------------------------------------------ the judge *)
+(* a chain that is the backwalk of a REAL pipeline: additionally build_plan / explain / run_collect *)
+Definition judge_planned (ex : cmp_mode) (term : tag) (raw : list node) (parts : nat)
+           (ds : list (list ndesc)) (ois : list opinfo) (os : list obs)
+           (plan_d : list ndesc) (exp : list string) (cs cp : obs) : verdict :=
+  let ru := map op_uid (chain_ops raw) in
+  let c := judge_common ex term raw parts ds ois os in
+  let mplan := optimise raw in
+  let agree_extra :=
+      desc_eqb (map (desc_of ru) mplan) plan_d
+      && strs_eqb (map kind_name (explain mplan)) exp
+      && obs_agree ex (m_seq term mplan) cs
+      && obs_agree ex (m_par term mplan parts) cp in
+  let prop_extra :=
+      (* build_plan = the four passes composed; explain = its kinds; run_collect runs it *)
+      desc_eqb plan_d (optimised_desc ds)
+      && strs_eqb (map ndesc_name plan_d) exp
+      && match os with
+         | [so; _; po; _] => obs_agree ex so cs && obs_agree ex po cp
+         | _ => false
+         end in
+  finish c agree_extra prop_extra (sem_prop ex (fun _ => ex) term raw os []).
+
 Definition check_C03 (kind : string) (input output : J) : verdict :=
   if String.eqb kind "syn" then
     (* in = [term_tag, nodes, partitions];
        out = ["ok", descs, opinfo, execs, [prefix_values, explain node types of the optimised chain]] *)
     match input, output with
     | JL [jt; JL jnodes; jp], JL [JS ok; jd; jo; je; JL [jx; jexp]] =>
-        match dec_tagname jt, dec_nodes 0 jnodes, dec_nat jp,
+        match dec_tagname jt, dec_nodes [] jnodes, dec_nat jp,
               dec_descs jd, dec_opinfos jo, dec_obss je, dec_obss jx, dec_strs jexp,
               omap dec_nkind jnodes with
         | Some term, Some raw, Some parts, Some ds, Some ois, Some os, Some pre, Some exp, Some ks =>
@@ -597,31 +642,32 @@ Definition check_C03 (kind : string) (input output : J) : verdict :=
             | Some plan_d, Some exp, Some [cs; cp] =>
                 if tag_is ok "ok" then
                   let cst := compile s steps in
-                  let raw := cs_chain cst in
-                  let term := cs_tag cst in
-                  let ru := map op_uid (chain_ops raw) in
-                  let ex := cmp_of steps in
-                  let c := judge_common ex term raw parts ds ois os in
-                  let mplan := optimise raw in
-                  let agree_extra :=
-                      desc_eqb (map (desc_of ru) mplan) plan_d
-                      && strs_eqb (map kind_name (explain mplan)) exp
-                      && obs_agree ex (m_seq term mplan) cs
-                      && obs_agree ex (m_par term mplan parts) cp in
-                  let prop_extra :=
-                      (* build_plan = the four passes composed; explain = its kinds; run_collect
-                         runs it *)
-                      desc_eqb plan_d (optimised_desc ds)
-                      && strs_eqb (map ndesc_name plan_d) exp
-                      && match os with
-                         | [so; _; po; _] => obs_agree ex so cs && obs_agree ex po cp
-                         | _ => false
-                         end in
-                  finish c agree_extra prop_extra (sem_prop ex (fun _ => ex) term raw os [])
+                  judge_planned (cmp_of steps) (cs_tag cst) (cs_chain cst) parts ds ois os
+                                plan_d exp cs cp
                 else malformed
             | _, _, _ => malformed
             end
         | _, _, _, _, _, _ => malformed
+        end
+    | _, _ => malformed
+    end
+  else if String.eqb kind "xf" then
+    (* a real pipeline built with from_vec + apply_transform (one Stateless node per item, operator
+       objects possibly REUSED) + the barrier builders; described like a synthetic chain.
+       in = [term_tag, nodes, partitions]; out as for "prog" *)
+    match input, output with
+    | JL [jt; JL jnodes; jp], JL [JS ok; jd; jo; je; JL [jplan; jexp; jcol]] =>
+        match dec_tagname jt, dec_nodes [] jnodes, dec_nat jp,
+              dec_descs jd, dec_opinfos jo, dec_obss je, omap dec_nkind jnodes with
+        | Some term, Some raw, Some parts, Some ds, Some ois, Some os, Some ks =>
+            match dec_desc jplan, dec_strs jexp, dec_obss jcol with
+            | Some plan_d, Some exp, Some [cs; cp] =>
+                if tag_is ok "ok" then
+                  judge_planned (mode_of_kinds ks) term raw parts ds ois os plan_d exp cs cp
+                else malformed
+            | _, _, _ => malformed
+            end
+        | _, _, _, _, _, _, _ => malformed
         end
     | _, _ => malformed
     end
